@@ -71,7 +71,7 @@ def no_statement_rule(ctx, rule):
                        "" if ok else "%s loops on %s; for a current token of kind %s no statement is parsed, nothing is consumed and nothing is rejected, so the loop makes no "
                        "progress (the input is never fully parsed)" % (fn.path, hpath.rsplit("::", 1)[-1], k), fn.loc(fn.term(hb)["line"]),
                        how="consumed or rejected on every iteration")
-    rep.floor(rule, n, 3, "loops that re-enter statement parsing")
+    rep.floor(rule, n, 2, "loops that re-enter statement parsing")
 
 
 @prop("C13")
